@@ -202,7 +202,9 @@ fn wire_case(rng: &mut Rng, rec: &mut Rec) {
     }
 }
 
-const HOSTILE: [&[u8]; 55] = [
+const HOSTILE: [&[u8]; 61] = [
+    // (scheme names are case-insensitive)
+    b"HTTPS:evil.test/x", b"Http:/evil.test/x", b"HTTP:///evil.test/x", b"hTtP:\\\\evil.test/x", b"HTTPS://evil.test\\@a.test/", b"HtTpS:evil.test",
     // references that only a WHATWG parser's repairs turn into a URL on another host: RFC 3986 reads a path on the
     // current authority, or a URI without a host
     b"/\\evil.test/x", b"\\\\evil.test/x", b"/\t/evil.test/x", b"https:evil.test/x", b"https:/evil.test/x", b"http:evil.test/x", b"http:/evil.test/x", b"http:///evil.test/x", b"https:///evil.test/x", b"///evil.test/x",
@@ -558,7 +560,7 @@ impl Property for P {
             Workload::new("chains", tier.pick(20_000, 8_000_000), false, "random clean chains, URI compared at every hop"),
             Workload::new("wire", tier.pick(5_000, 2_000_000), false, "request line and Host of every intermediate hop"),
             Workload::new("apostrophe", 72, true, "3 bases x 8 Locations with an apostrophe in query or path (and controls) x 3 statuses: path and query must arrive as they stand"),
-            Workload::new("hostile", ((HOSTILE.len() + LONG_NON_TEXTUAL) * 6) as u64, true, "hostile Locations (55 hand-picked + 56 long non-textual ones around 256 bytes) x 3 bases x met on the first or on the second hop"),
+            Workload::new("hostile", ((HOSTILE.len() + LONG_NON_TEXTUAL) * 6) as u64, true, "hostile Locations (61 hand-picked + 56 long non-textual ones around 256 bytes) x 3 bases x met on the first or on the second hop"),
             Workload::new("origin-form", 6 * 12 * 3 * 3, true, "requests in origin-form and authority-form (http:80, https:443, a.test:443) with the Host spelled out x 12 Locations x 3 methods x 3 statuses: no absolute base to resolve against"),
             Workload::new("partial-two-locations", 54, true, "opt-in truncated 3xx heads carrying two different Location fields"),
             Workload::new("missing", 108, true, "missing / non-textual Location, alone, as the last of several fields, and after interim responses that carry a Location"),
